@@ -426,6 +426,16 @@ func descD(v ssa.Value, depth int) string {
 		}
 		return fmt.Sprintf("arg#%d", paramIndex(x))
 	case *ssa.FreeVar:
+		// a captured object of a module struct type is the same object inside the closure: type-rooted like a parameter
+		if pt, ok := x.Type().(*types.Pointer); ok {
+			if n := namedOf(pt.Elem()); n != nil && !isBigIntPtr(pt.Elem()) {
+				if _, ok := n.Underlying().(*types.Struct); ok {
+					if _, isPtr := pt.Elem().(*types.Pointer); isPtr {
+						return "<" + typeShort(n) + ">"
+					}
+				}
+			}
+		}
 		return "free:" + x.Name()
 	case *ssa.Const:
 		if x.Value == nil {
@@ -578,7 +588,19 @@ func descD(v ssa.Value, depth int) string {
 				}
 			}
 			if len(whole) == 1 {
-				if _, isStruct := x.Type().(*types.Pointer).Elem().Underlying().(*types.Struct); isStruct {
+				et := x.Type().(*types.Pointer).Elem()
+				_, isStruct := et.Underlying().(*types.Struct)
+				if pe, isPtr := et.(*types.Pointer); isPtr && !isBigIntPtr(et) {
+					// the cell of a captured parameter holding a pointer to a module struct
+					if n := namedOf(pe); n != nil {
+						if _, ok := n.Underlying().(*types.Struct); ok {
+							if _, isParam := whole[0].(*ssa.Parameter); isParam {
+								isStruct = true
+							}
+						}
+					}
+				}
+				if isStruct {
 					switch w := whole[0].(type) {
 					case *ssa.Parameter, *ssa.Extract, *ssa.Field, *ssa.Index, *ssa.Lookup:
 						return descD(whole[0], depth+1)
@@ -1218,13 +1240,17 @@ func callsTo(fn, g *ssa.Function) []ssa.CallInstruction {
 // deepVisit calls visit for fn and, with their parameters bound to the call's arguments, for the
 // module-internal functions fn calls (the helpers a block of fn may have been extracted into).
 func deepVisit(P *Program, fn *ssa.Function, depth int, visit func(g *ssa.Function)) {
-	seen := map[*ssa.Function]bool{}
+	seen := map[string]bool{} // per function and binding: a helper called twice is visited for each call's arguments
 	var walk func(g *ssa.Function, d int)
 	walk = func(g *ssa.Function, d int) {
-		if g == nil || g.Blocks == nil || seen[g] {
+		if g == nil || g.Blocks == nil {
 			return
 		}
-		seen[g] = true
+		k := fmt.Sprintf("%p", g) + bindingSig(g)
+		if seen[k] || len(seen) > 200 {
+			return
+		}
+		seen[k] = true
 		visit(g)
 		if d <= 0 {
 			return
